@@ -4,6 +4,8 @@
                                              test of repair 17fc8e9 — build_prefix is the function before it)
      vrp-core/src/models/problem/costs.rs :: TimeAgnosticMatrixTransportCost::{new, duration_approx, distance_approx, duration, distance, size}
      vrp-core/src/models/problem/costs.rs :: TimeAwareMatrixTransportCost::{new, interpolate_duration, interpolate_distance, *_approx}
+                                             (interpolate_duration with the marker guard of repair d8f731f: interp_marked;
+                                              aware_dur_raw_prefix / duration_prefix are the functions before it)
      vrp-core/src/models/problem/costs.rs :: SimpleTransportCost::{new, duration_approx, distance_approx}
      vrp-core/src/models/problem/costs.rs :: NoFallback (panic) / TransportFallback (a function returning a value or panicking)
      vrp-pragmatic/src/format/problem/fleet_reader.rs :: get_profile_index_map, create_transport_costs, read_fleet (profile index / scale of a vehicle)
@@ -129,6 +131,11 @@ Definition aware_group (costs : list matrix) (p : nat) : option (list matrix) :=
   match group_raw costs p with [] => None | g => Some (sort_by ts_key g) end.
 
 Definition interp (t tl tr lv rv : Q) : Q := (lv + (t - tl) / (tr - tl) * (rv - lv))%Q.
+(* since repair d8f731f (finding C16-F5): `if left_value < 0. || right_value < 0. { return left_value; }` in front of the
+   interpolation - a negative value is the unreachable marker *)
+Definition is_neg (q : Q) : bool := negb (Qle_bool 0 q).
+Definition interp_marked (t tl tr lv rv : Q) : Q :=
+  if is_neg lv || is_neg rv then lv else interp t tl tr lv rv.
 
 Definition cell (sel : matrix -> list Q) (idx : nat) (o : option matrix) : option Q :=
   match o with Some m => nth_error (sel m) idx | None => None end.
@@ -139,6 +146,24 @@ Definition aware_dur_raw (ms : list matrix) (idx : nat) (t : Q) : option Q :=
   | Insert O => cell m_dur idx (hd_error ms)
   | Insert (S k) =>
     if (S k =? length ms)%nat then cell m_dur idx (nth_error ms k)      (* matrices.last() *)
+    else match nth_error ms k, nth_error ms (S k) with
+         | Some l, Some r =>
+           match nth_error (m_dur l) idx, nth_error (m_dur r) idx with
+           | Some lv, Some rv => Some (interp_marked t (ts_of l) (ts_of r) lv rv)
+           | _, _ => None
+           end
+         | _, _ => None
+         end
+  end.
+
+(* the lookup as it was before repair d8f731f: interpolation through the marker (finding C16-F5); kept only for the
+   witness theorems about the pre-fix code *)
+Definition aware_dur_raw_prefix (ms : list matrix) (idx : nat) (t : Q) : option Q :=
+  match bsearch (map ts_key ms) (ztrunc t) with
+  | Found k => cell m_dur idx (nth_error ms k)
+  | Insert O => cell m_dur idx (hd_error ms)
+  | Insert (S k) =>
+    if (S k =? length ms)%nat then cell m_dur idx (nth_error ms k)
     else match nth_error ms k, nth_error ms (S k) with
          | Some l, Some r =>
            match nth_error (m_dur l) idx, nth_error (m_dur r) idx with
@@ -168,6 +193,21 @@ Definition duration (pr : provider) (fb : fallback) (p : nat) (scale : Q) (from 
     match aware_group costs p with
     | None => Panic
     | Some ms => rscale (or_fallback fb from to (aware_dur_raw ms (from * size + to) t)) scale
+    end
+  end.
+
+(* TransportCost::duration before repair d8f731f *)
+Definition duration_prefix (pr : provider) (fb : fallback) (p : nat) (scale : Q) (from to : nat) (t : Q) : res :=
+  match pr with
+  | PAgnostic durs _ size =>
+    match nth_error durs p with
+    | None => Panic
+    | Some row => rscale (or_fallback fb from to (nth_error row (from * size + to))) scale
+    end
+  | PAware costs size =>
+    match aware_group costs p with
+    | None => Panic
+    | Some ms => rscale (or_fallback fb from to (aware_dur_raw_prefix ms (from * size + to) t)) scale
     end
   end.
 
@@ -265,9 +305,14 @@ Fixpoint with_codes (codes : list Z) (i : nat) (times dists : list Z) : option (
       end
   end.
 
+(* with error codes: Err unless codes, travel times and distances have the same length (`<` test of f7d2f27, `!=` test of
+   7d3c5fe, finding C16-F4); all failures of the step are None here (the kinds are distinguished in Model/RoutingDoc.v pm_data2) *)
 Definition pm_data (pm : pmatrix) : option (list Q * list Q) :=
   match pm_err pm with
-  | Some codes => with_codes codes 0 (pm_times pm) (pm_dists pm)
+  | Some codes =>
+    if (length codes <? length (pm_dists pm))%nat then None
+    else if negb ((length codes =? length (pm_dists pm))%nat && (length (pm_times pm) =? length (pm_dists pm))%nat) then None
+    else with_codes codes 0 (pm_times pm) (pm_dists pm)
   | None => Some (map inject_Z (pm_times pm), map inject_Z (pm_dists pm))
   end.
 
